@@ -16,7 +16,7 @@ class TheCheck(HarrCheck):
         "key length <= 65535 (pair.namesize is 16 bits)",
         "hand model of qhasharr.c validated on the explored histories only; the key's murmur3 hash and MD5 are parameters of the model, "
         "computed by an independent Python implementation and compared with what the C code stored (slot.hash, pair.namemd5)",
-        "slot.count/usedslots/num modelled unbounded (exact while no home carries more than 32767 keys and maxslots < 2^31)",
+        "slot.count / hash / datasize / link and the header counters are modelled unbounded; theorem widths_suffice: on every well-formed image of fewer than 2^31 slots all stored values fit the fields of the CURRENT header (widths regenerated: HarrLayout sizeofCount/Hash/Datasize/Link/Maxslots, cross-checked by Shapes.Harr) iff no home slot carries more than 32767 keys, always for at most 32767 slots; widths_necessary names what narrower fields would violate; failing inputs for narrowed fields: one-home universes of 127..200 keys (quick), tables of 70000 / 140000 slots (thorough)",
     ]
 
     def streams(self):
